@@ -188,7 +188,7 @@ PROPERTY = {
         "prefix tree; one evaluation = one sequence, compared after its last sample (and, by construction, after every "
         "earlier one) with the executable specification; non-trivial = the sequence contains a warning and a drift. "
         "random_long: Hypothesis piecewise-stationary sequences (up to 600 samples, n_threshold/window up to 30); "
-        "non-trivial = at least two drifts (three epochs) and a warning. Ties inside 1e-9 fork the specification."
+        "non-trivial = at least two drifts (three epochs) and a warning. Ties inside 1e-9 fork the specification, except DDM's two exact ties (deviation exactly 0 on a constant prefix; current point is the new minimum and the scale is 1), which are decided by the documented >=."
     ),
     "assumptions": [
         "DDM's deviation recurrence and use of the current s follow code + test_ddm::test_warning (docstring's s_min is not what the suite pins)",
